@@ -140,6 +140,15 @@ pub fn decompose_dbg(
     (o, st)
 }
 
+/// No arithmetic result of the traced run is NaN.  The ZeroDet-precedence rule is
+/// applied to such runs only: with a negative pivot the factor holds NaN, "the pivot
+/// product" is NaN rather than zero, and an implementation may well report ZeroDet
+/// without the test (its determinant formula gives 0) and Unstable with it (it
+/// stops at the negative pivot) - seeded/p16 does, legitimately.
+fn nan_free(st: &ctx::OpStats) -> bool {
+    st.trace.as_ref().map(|t| t.iter().all(|ev| !(kind::is_arith(ev.kind) && is_nan(ev.r)))).unwrap_or(false)
+}
+
 /// the same call with the library's OWN scalar, plain `f64` (code that exists only
 /// in `impl MomTropFloat for f64` - an overridden provided method, a specialised
 /// fast path - is reached by no newtype)
@@ -474,7 +483,8 @@ pub fn run_case(case: &Case) -> CaseResult {
                     }
                     DecOutcome::Err(e) if tol.is_some() && !e.contains("ZeroDet") => {
                         if let DecOutcome::Err(e0) = decompose_plain(mat, None, *debug) {
-                            if e0.contains("ZeroDet") {
+                            // (NaN-freeness read off the traced newtype run of the same matrix)
+                            if e0.contains("ZeroDet") && nan_free(&decompose_dbg(mat, None, &[], true, *debug).1) {
                                 violations.push(V16 {
                                     class: "zero-pivot-product-not-reported-as-zerodet".into(),
                                     what: "plain f64 scalar: ZeroDet without the stability test, Unstable with it".into(),
@@ -490,8 +500,8 @@ pub fn run_case(case: &Case) -> CaseResult {
             // determinant) and must be reported ZeroDet with the test as well, not
             // swallowed by the stability verdict (natural runs only)
             if faults.is_empty() && tol.is_some() && outcome == "unstable" {
-                if let (DecOutcome::Err(e), _) = decompose_dbg(mat, None, &[], false, *debug) {
-                    if e.contains("ZeroDet") {
+                if let (DecOutcome::Err(e), st0) = decompose_dbg(mat, None, &[], true, *debug) {
+                    if e.contains("ZeroDet") && nan_free(&st0) {
                         violations.push(V16 {
                             class: "zero-pivot-product-not-reported-as-zerodet".into(),
                             what: format!(
@@ -794,7 +804,14 @@ fn run_narrow(m: &MatCase, tol: Option<u64>) -> (Vec<V16>, &'static str) {
             };
             if tol.is_some() && outcome == "unstable" {
                 if let Err(e0) = narrow_decompose(m, None) {
-                    if e0.contains("ZeroDet") {
+                    // NaN-freeness read off the traced f64-newtype run of the same
+                    // (f32-rounded) matrix
+                    let m32 = MatCase {
+                        dim: m.dim,
+                        entries: m.entries.iter().map(|b| ((f64::from_bits(*b) as f32) as f64).to_bits()).collect(),
+                        class: m.class.clone(),
+                    };
+                    if e0.contains("ZeroDet") && nan_free(&decompose_dbg(&m32, None, &[], true, false).1) {
                         v.push(V16 {
                             class: "zero-pivot-product-not-reported-as-zerodet".into(),
                             what: format!("f32-range scalar: ZeroDet without the stability test, Unstable with Some({:?})", tol.map(f64::from_bits)),
